@@ -509,6 +509,7 @@ func (self *Metadata) cache(name MetadataFileName, uniquifier string) {
 	verifEvent("MdCache", "md", self.path, "fq", self.fqname, "name", string(name), "got", uniquifier, "want", self.uniquifier)
 	if self.uniquifier == uniquifier {
 		self._cacheNoLock(name)
+		verifEvent("MdCached", "md", self.path, "name", string(name))
 	} else if self.uniquifier != "" {
 		util.LogInfo("runtime",
 			"There appears to be more than one instance of %s running "+
